@@ -112,7 +112,7 @@ def scheduler_identity(ctx, rng, cases):
         for ev in events:
             if ev["ev"] != "Eval":
                 continue
-            t = next(t for t in tl._tasks if _pid(inst, e, t) == ev["task"])
+            t = next(t for t in tl.data if _pid(inst, e, t) == ev["task"])
             a = tl.modulus_adiabatic_values[t.task_params]
             b = tl.modulus_isothermal_values[t.task_params]
             records.append({"task": f"{r}:{ev['task']}", "shear": ev["task"].startswith("S"),
